@@ -868,7 +868,7 @@ def extract_pointers(src, facts, notes):
 def emit_pointers(PT):
     b = lambda x: 'true' if x else 'false'
     out = ['(* --- pointer plumbing (compared with the bodies the model was written against) and ArcUnion tag arithmetic --- *)']
-    for g in ['arc_raw', 'offset', 'borrow', 'thin', 'union', 'swap', 'ctor']:
+    for g in ['arc_raw', 'offset', 'borrow', 'thin', 'union', 'swap', 'ctor', 'cow']:
         out.append('Definition %s_forms_ok : bool := %s.' % (g, b(PT['forms'].get(g))))
     U = PT['union']
     out.append('Definition union_tag1 : bexpr := %s.' % U['tag1'])
@@ -1297,7 +1297,7 @@ def emit_traits(T):
 HEADER = '''(* GENERATED by tools/extract.py from %s -- do not edit.
    source digest: %s *)
 From Coq Require Import NArith List String.
-From TV Require Import Layout SrcFacts Bits Conc Guard Cmp Serde Traits.
+From TV Require Import Layout SrcFacts Bits Conc ConcX Guard Cmp Serde Traits.
 Import ListNotations.
 Open Scope N_scope.
 '''
@@ -1313,6 +1313,8 @@ def run(srcdir):
     extract_cmp(src, facts, notes)
     extract_serde(src, facts, notes)
     extract_traits(src, facts, notes)
+    import countprogs
+    facts['count_progs'] = countprogs.extract_count_progs(src)
     facts['notes'] = notes
     h = hashlib.sha256()
     for f in sorted(os.listdir(srcdir)):
@@ -1328,6 +1330,10 @@ def run(srcdir):
     lines += emit_cmp(facts['cmp']); lines.append('')
     lines += emit_serde(facts['serde']); lines.append('')
     lines += emit_traits(facts['traits']); lines.append('')
+    CP = facts['count_progs']
+    lines.append('(* --- the counter protocol as programs: Arc::drop_inner, Arc::try_unique (through is_unique/count), the not-unique path of Arc::unwrap_or_clone --- *)')
+    lines.append('Definition count_progs : progs := mkProgs %s %s %s.' % tuple(coq_list(['(%s)' % re.sub(r'^(IRetIf(?:Ne|Eq)) (\d+)$', r'\1 \2%nat', i) if ' ' in i else i for i in CP[k]]) for k in ('drop', 'uniq', 'uoc')))
+    lines.append('')
     return facts, '\n'.join(lines) + '\n'
 
 def jsonable(x):
